@@ -41,7 +41,11 @@ def is_numeric_token(tok):
         return False
 
 
-def gen_text_token(rng):
+def gen_text_token(rng, allow_data=False):
+    if allow_data and rng.random() < 0.15:
+        # e.g. a path like data_01/tomo_3.mrc: a legal text token (no whitespace, no '#', no leading '_', not numeric);
+        # only generated for tables with >= 2 columns, where a row can never be mistaken for a block name
+        return "data_%02d/%s" % (rng.randrange(100), rng.pick(["tomo_3.mrc", "x", "TS_01.rec"]))
     while True:
         n = rng.pick([1, 2, 3, 6, 12, 25])
         tok = rng.pick(ALPHA) + "".join(rng.pick(REST) for _ in range(n - 1))
@@ -78,14 +82,17 @@ def gen_frame(rng, nrows, ncols, stopgap):
     for nm in names:
         kind = rng.weighted([("int", 3), ("float", 5), ("text", 3), ("mixedtext", 1)])
         if kind == "int":
-            vals = [rng.randrange(-1000, 100000) for _ in range(nrows)]
+            if rng.random() < 0.1:   # identifiers beyond 2**53: exact in int64, not representable in float64
+                vals = [rng.pick([-1, 1]) * (2 ** 53 + rng.randrange(1, 10 ** 6) * 2 + 1) for _ in range(nrows)]
+            else:
+                vals = [rng.randrange(-1000, 100000) for _ in range(nrows)]
         elif kind == "float":
             st = rng.pick(["plain", "r3", "tiny", "big", "integral", "halfstep"])
             vals = [gen_float(rng, st) for _ in range(nrows)]
         elif kind == "text":
-            vals = [gen_text_token(rng) for _ in range(nrows)]
+            vals = [gen_text_token(rng, ncols >= 2) for _ in range(nrows)]
         else:
-            vals = [gen_text_token(rng) if (i == 0 or rng.chance(0.5)) else str(rng.randrange(100)) for i in range(nrows)]
+            vals = [gen_text_token(rng, ncols >= 2) if (i == 0 or rng.chance(0.5)) else str(rng.randrange(100)) for i in range(nrows)]
         cols.append({"name": nm, "kind": kind, "values": vals})
     return cols
 
@@ -111,7 +118,8 @@ def expected_from_frames(blocks):
         cols = []
         for c in b["cols"]:
             numeric = c["kind"] in ("int", "float")
-            cols.append({"numeric": numeric, "values": list(c["values"]), "tol": TOL_ABS if numeric else 0.0})
+            cols.append({"numeric": numeric, "values": list(c["values"]), "tol": TOL_ABS if numeric else 0.0,
+                         "exact_int": c["kind"] == "int"})
         exp.append({"spec": b["spec"], "labels": [c["name"] for c in b["cols"]], "cols": cols, "nrows": b["nrows"]})
     return exp
 
@@ -325,6 +333,23 @@ class C02(Property):
 
     def cmp_cell(self, got, c, ri, what, clause, from_text=False):
         want = c["values"][ri]
+        if c.get("exact_int") and isinstance(want, int) and abs(want) > 2 ** 52:
+            # an integer column: the value must come back exactly (no detour through float64)
+            try:
+                gi = int(got) if not isinstance(got, float) else (int(got) if got == int(got) else None)
+            except (ValueError, TypeError):
+                gi = None
+            if isinstance(got, str):
+                try:
+                    gi = int(got)
+                except ValueError:
+                    try:
+                        gi = int(float(got)) if float(got) == int(float(got)) else None
+                    except ValueError:
+                        gi = None
+            if gi != want:
+                raise Violation(clause, "big_integer", "%s row %d: %r, expected the integer %d exactly" % (what, ri, got, want))
+            return
         if c["numeric"]:
             try:
                 g = float(got)
@@ -417,6 +442,8 @@ class C02(Property):
             if len(b["cols"]) > 1:
                 for ci in range(len(b["cols"])):
                     b2 = dict(b, cols=b["cols"][:ci] + b["cols"][ci + 1:])
+                    if len(b2["cols"]) == 1 and any(str(v).startswith("data_") for v in b2["cols"][0]["values"]):
+                        continue  # a one-column table must not hold tokens that look like block names
                     yield dict(step, blocks=blocks[:bi] + [b2] + blocks[bi + 1:])
             if b.get("index"):
                 b2 = {k: v for k, v in b.items() if k != "index"}
